@@ -6,6 +6,7 @@ import (
 	"io"
 	logslog "log/slog"
 	"os"
+	"slices"
 	"strconv"
 	"strings"
 	"sync"
@@ -531,12 +532,22 @@ func GetDefaultLoggersWriter() (wr io.Writer) { return defaultLog.GetWriter() } 
 
 // GetWriter looks up the best writer for current level.
 func (s *Entry) GetWriter() (wr LogWriter) {
-	return s.findWriter(s.level)
+	return detachWriters(s.findWriter(s.level))
 }
 
 // GetWriterBy returns the leveled writer.
 func (s *Entry) GetWriterBy(level Level) (wr LogWriter) {
-	return s.findWriter(level)
+	return detachWriters(s.findWriter(level))
+}
+
+// detachWriters hands out a copy of a writer list. The list may be
+// given to another logger (SetWriter, AddWriter); later Add/Remove
+// calls on this logger must not reach into what that logger holds.
+func detachWriters(lw LogWriter) LogWriter {
+	if ws, ok := lw.(LWs); ok {
+		return slices.Clone(ws)
+	}
+	return lw
 }
 
 // WithWriter sets a std writer to Default logger, the
